@@ -27,6 +27,9 @@ Verdict(c) ==
   ELSE IF ~Matches(c, AllIds(c), c.fold_wal) THEN "recover_with_wal() is not the merge of everything persisted"
   ELSE IF "corrupt_read" \in DOMAIN c /\ c.corrupt_read.ok /\ ~Matches(c, ObjIds(c), c.corrupt_read.fold)
        THEN "recovery over a corrupted segment download returned a part of the persisted state instead of failing"
+  ELSE IF "fold_progress" \in DOMAIN c /\ ~Matches(c, ObjIds(c), c.fold_progress) THEN "recover_with_progress() is not the merge of checkpoint and segments"
+  ELSE IF "corrupt_reads" \in DOMAIN c /\ \E r \in Range(c.corrupt_reads) : r.ok /\ ~Matches(c, IF r.wal THEN AllIds(c) ELSE ObjIds(c), r.fold)
+       THEN "a recovery entry point decoded a damaged checkpoint or segment download into a different state instead of failing"
   ELSE IF ~Matches(c, AllIds(c), c.node) THEN "node state after apply_recovered_state differs from the merge"
   ELSE IF ~Matches(c, AllIds(c), c.node2) THEN "repeating recovery changes the node state"
   ELSE "ok"
